@@ -4,7 +4,7 @@
    through, and the process alive after hostile traffic. *)
 From Coq Require Import List ZArith Bool.
 Require Import MTX.Lib.PathClean MTX.Model.C34_Descriptors.
-Require Export MTX.Model.C35_PreAuth MTX.Model.C35_SessionConc.
+Require Export MTX.Model.C35_PreAuth MTX.Model.C35_SessionConc MTX.Model.C35_TsIngest.
 Import ListNotations.
 Local Open Scope Z_scope.
 
@@ -55,6 +55,10 @@ Inductive case :=
 | CParam (s : list Z) (r : option (list Z)) (panicked : bool)
   (* srt streamID.unmarshal on a raw stream id (the decoded fields are C34's subject; here: does it panic?) *)
 | CSrt (raw : list Z) (failed : bool) (panicked : bool)
+  (* MPEG-TS ingestion (publisher DATA): the real EnhancedReader.Initialize + ToStream + read loop on a generated
+     stream under recover(); tracks and events as a plain mediacommon Reader sees the same bytes (oracle), elements
+     as mpeg4audio decodes them (oracle); o = what the in-tree code did *)
+| CTs (ts : list TS.track) (evs : list TS.event) (o : TS.ires)
   (* RTSP DESCRIBE through a real Core: ctx_path = gortsplib's path of the request URL (oracle) *)
 | CRtsp (ctx_path : list Z) (status : Z)
   (* crash oracle (testing): after the hostile traffic described in desc, is the process alive and does
@@ -302,6 +306,19 @@ Definition race_allowed (c : cfg) (name query : list Z) (ss : list stream) (scri
   existsb (fun x => sess_matches (fst x) fin && threads_match (snd x) obs)
           (explore c (sess0 name query, map (thread0 c AsFound) ss) script).
 
+Definition rend_eqb (a b : TS.rend) : bool :=
+  match a, b with TS.REof, TS.REof | TS.RDecode, TS.RDecode | TS.RDynamic, TS.RDynamic => true | _, _ => false end.
+Definition optz_eqb (a b : option Z) : bool :=
+  match a, b with Some x, Some y => Z.eqb x y | None, None => true | _, _ => false end.
+Fixpoint optzs_eqb (a b : list (option Z)) : bool :=
+  match a, b with [], [] => true | x :: a', y :: b' => optz_eqb x y && optzs_eqb a' b' | _, _ => false end.
+Definition ires_eqb (a b : TS.ires) : bool :=
+  match a, b with
+  | TS.IInitErr, TS.IInitErr | TS.INoCodecs, TS.INoCodecs | TS.IPanic, TS.IPanic => true
+  | TS.IRan m r u e, TS.IRan m' r' u' e' => optzs_eqb m m' && Z.eqb r r' && (Z.eqb u u' || (u' <? 0)) && rend_eqb e e'   (* units < 0: not observed *)
+  | _, _ => false
+  end.
+
 Definition mismatch (c : case) : bool :=
   match c with
   | CFilter path passed panicked =>
@@ -351,6 +368,7 @@ Definition mismatch (c : case) : bool :=
   | CRtsp ctx_path status =>
       match exp_rtsp ctx_path with Ok s => negb (s =? status) | Panic => true end
   | CCrash _ _ _ => false
+  | CTs ts evs o => negb (ires_eqb (TS.ingest TS.PvCode ts evs) o)
   | CMoqRace c name query ss script obs fin => negb (race_allowed c name query ss script obs fin)
   end.
 
@@ -373,6 +391,8 @@ Definition spec_fail (c : case) : bool :=
   | CValid _ _ panicked => panicked
   | CParam _ _ panicked => panicked
   | CSrt _ _ panicked => panicked
+    (* the publisher goroutine panicked on publisher-supplied MPEG-TS data *)
+  | CTs _ _ o => match o with TS.IPanic => true | _ => false end
   | CRtsp _ status => status =? 0            (* 0 = no answer: the connection or the process died *)
   | CCrash _ alive answers => negb (alive && answers)
     (* no stream handler, API call or Close() of the raced session panicked *)
